@@ -195,6 +195,7 @@ func VerifH_range_step() {
 	vnd.Unshare()
 
 	vnd.Assert(r != nil || stop, "C13 a built-in handler returns a nil response only together with stop")
+	vnd.Assert(r != nil || stop, "C01 no handler passes a nil response on to its successors (they would dereference it)")
 	vnd.AssertEngine(vnd.HeldLocks() == 0, "C16 range plugin lock released")
 	if vnd.Symbolic() {
 		vnd.AssertEngine(vnd.Acquisitions(&w.p.Mutex) == 1, "C16 the range handler runs inside exactly one critical section of the plugin mutex")
